@@ -60,6 +60,11 @@ Proof. vm_compute. reflexivity. Qed.
 Theorem cli_key_cmds : check_key_cmds = true.
 Proof. vm_compute. reflexivity. Qed.
 
+(* paths, strip prefixes and exclude patterns reach the library verbatim: the repeatable list flags
+   of run / record / match-products are StringArray flags (no CSV splitting at commas) *)
+Theorem cli_list_flags_verbatim : check_list_flags_verbatim = true.
+Proof. vm_compute. reflexivity. Qed.
+
 (* ---------- file names ---------- *)
 
 (* the format constants evaluate, inside the modelled Sprintf fragment, to these shapes *)
